@@ -56,8 +56,10 @@ func Before[S ~string, T any, V constraints.Signed](n *V, c *cache.Cache[S, T], 
 func Once[S ~string, T comparable, V constraints.Signed](c *cache.Cache[S, T], fn func() T) T {
 	memo, _ := c.Get("func")
 	if memo == nil {
-		c.Set("func", fn(), cache.DefaultExpiration)
-		return fn()
+		// Invoke the function a single time and return the cached result.
+		val := fn()
+		c.Set("func", val, cache.DefaultExpiration)
+		return val
 	}
 	memo, _ = c.Get("func")
 
